@@ -3,10 +3,11 @@
    model  = the importer model run on the items (the records Go's reader delivered)
    spec   = evaluated on the binary's output by the observer (it needs `knut print`), which
             appends " | print=... | rows=..." to the observation; here that is turned into
-            the verdict (as in drv_c13a.ml).  For interactivebrokers the statement-level
-            specification (Spec/ImpSpecIB.v, theorem C13_interactivebrokers_stdout) is evaluated
-            as well: a statement the generator calls well-formed must satisfy ibs_wf, and the
-            binary's stdout must be ibs_statement_output of the records. *)
+            the verdict (as in drv_c13a.ml).  The statement-level specification
+            (Spec/ImpSpecIB.v, Spec/ImpStmtB.v; theorems C13_<importer>_stdout) is evaluated as
+            well: a statement the generator calls well-formed must satisfy ibs_wf resp.
+            <importer>_statement_wf, and the binary's stdout must be <importer>_statement_output
+            of the records. *)
 open Drv_util
 open Drv_journal
 open Drv_c13a
@@ -70,7 +71,18 @@ let run_b (imp : string) (inp : string) (obs : string) : string * string =
       (match acc "acct", acc "fee" with
        | Some a, Some f -> statement_verdict imp base (K.r2_statement_output a f rs)
        | _ -> undecoded)
-    | ("revolut" | "wise" | "swissquote"), Some _ -> "ok"   (* no executable statement-level specification yet *)
+    | "revolut", Some rs ->
+      (match acc "acct" with
+       | Some a -> statement_verdict imp base (K.rv_statement_output a rs)
+       | _ -> undecoded)
+    | "wise", Some rs ->
+      (match acc "acct", acc "fee", acc "trading" with
+       | Some a, Some f, Some t -> statement_verdict imp base (K.ws_statement_output wise_repaired a f t rs)
+       | _ -> undecoded)
+    | "swissquote", Some rs ->
+      (match acc "acct", acc "div", acc "int", acc "tax", acc "fee", acc "trading" with
+       | Some a, Some d, Some i, Some w, Some f, Some t -> statement_verdict imp base (K.sqs_statement_output a d i w f t rs)
+       | _ -> undecoded)
     | _ -> undecoded in
   let spec =
     if kind = "wf" then
